@@ -56,13 +56,19 @@ def _eval_named(name):
 def main():
     mode = sys.argv[1]
     os.makedirs(SEEDED, exist_ok=True)
-    if mode in ("import", "import2", "import3", "import4", "import5", "import6"):
+    import re as _re
+
+    mi = _re.fullmatch(r"import(\d*)", mode)
+    rnd = int(mi.group(1) or 1) if mi else 0
+    if mi:
+        src_of = lambda pid: f"/tmp/seed/out_{pid}" if rnd == 1 else f"/tmp/seed/out{rnd}_{pid}"
+        off = 2 * (rnd - 1)
         for pid in sys.argv[2:]:
             for k in ("1", "2", "3"):
-                src = {"import": f"/tmp/seed/out_{pid}", "import2": f"/tmp/seed/out2_{pid}", "import3": f"/tmp/seed/out3_{pid}", "import4": f"/tmp/seed/out4_{pid}", "import5": f"/tmp/seed/out5_{pid}", "import6": f"/tmp/seed/out6_{pid}"}[mode]
+                src = src_of(pid)
                 if not os.path.exists(f"{src}/patch{k}.diff"):
                     continue
-                d = f"{SEEDED}/{pid}-{int(k) + {"import": 0, "import2": 2, "import3": 4, "import4": 6, "import5": 8, "import6": 10}[mode]}"
+                d = f"{SEEDED}/{pid}-{int(k) + off}"
                 os.makedirs(d, exist_ok=True)
                 shutil.copy(f"{src}/patch{k}.diff", f"{d}/patch.diff")
                 shutil.copy(f"{src}/demo{k}.py", f"{d}/demo.py")
@@ -72,7 +78,7 @@ def main():
                     m = {}
                 meta = {"property": pid, "breaks": m.get("summary", ""), "needs_to_manifest": m.get("needs", ""), "author": "independent sub-agent given only the property text and a scratch worktree"}
                 json.dump(meta, open(f"{d}/meta.json", "w"), indent=1)
-    ks = {"import": ["1", "2", "3"], "import2": ["3", "4", "5"], "import3": ["5", "6", "7"], "import4": ["7", "8", "9"], "import5": ["9", "10", "11"], "import6": ["11", "12", "13"]}.get(mode, [])
+    ks = [str(2 * (rnd - 1) + j) for j in (1, 2, 3)] if mi else []
     if mode == "only":
         only = sys.argv[2:]
         mode = "rerun"
